@@ -180,6 +180,8 @@ func constraintIntOrString(key string, n cue.Value, s *state) {
 
 func constraintType(key string, n cue.Value, s *state) {
 	var types cue.Kind
+	// integerNode holds the "integer" entry, if any.
+	var integerNode cue.Value
 	set := func(n cue.Value) {
 		str, ok := s.strValue(n)
 		if !ok {
@@ -202,7 +204,7 @@ func constraintType(key string, n cue.Value, s *state) {
 		case "integer":
 			types |= cue.IntKind
 			s.setTypeUsed(n, numType)
-			s.add(n, numType, ast.NewIdent("int"))
+			integerNode = n
 		case "array":
 			types |= cue.ListKind
 			s.setTypeUsed(n, arrayType)
@@ -235,5 +237,10 @@ func constraintType(key string, n cue.Value, s *state) {
 		s.errf(n, `value of "type" must be a string or list of strings`)
 	}
 
+	if integerNode.Exists() && types&cue.FloatKind == 0 {
+		// Restrict numbers to integers, unless "number"
+		// is one of the listed types too.
+		s.add(integerNode, numType, ast.NewIdent("int"))
+	}
 	s.allowedTypes &= types
 }
